@@ -1,3 +1,4 @@
+import Mav.Spec.PublishedCrc
 import Mav.Proofs.Dialect
 import Mav.Gen.Dialects
 import Mav.Gen.MsgsAll
@@ -53,5 +54,17 @@ theorem shipped_constants_consistent : ∀ ch ∈ Gen.allConstGroups, ∀ g ∈ 
   have := h ch hch
   rw [List.all_eq_true] at this
   exact this g hg
+
+/-- one published value against the regenerated definition of that id in the dialect `common` -/
+def publishedOk (p : Nat × Nat) : Bool :=
+  match Gen.commonById.lookup p.1 with
+  | some st => (Spec.Msg.ofGo st).map Spec.Msg.crcExtra == some p.2
+  | none => false
+
+set_option maxRecDepth 1000000 in
+/-- **C17 (CRC_EXTRA values of standard messages equal the published ones; enumerated, kernel-decided).** For each of the 138
+    message ids of the reference table, the CRC_EXTRA that the specification derives from the shipped definition (regenerated from
+    the source on every run) — and hence, by `shipped_messages_ok`, the one the code computes — is the published value. -/
+theorem published_crc_extra : Spec.publishedCrcExtra.all publishedOk = true := by decide +kernel
 
 end Mav.C17
